@@ -24,6 +24,9 @@ var letters = []string{
 	"A->B 1", "B->fresh 7", "A stake min", "A unstake min", "A voteBP [0]", "A voteBP [1,2]", "D voteBP [1]",
 	"A voteDAO gasprice", "D voteDAO gasprice other", "B createName b", "C createName c", "B updateName b->C", "C deploy",
 	"D call set,set", "D call set,del,event +3", "D call set,fail", "A feedeleg ok",
+	// a transaction the producer drops after it ran (system error): what the producer keeps of it
+	// must be nothing, or the validator, which never sees it, computes another state
+	"D call set,sysfail",
 }
 
 func nets(tier string) []nk.Net {
@@ -269,7 +272,7 @@ func main() {
 	xplor.Main(xplor.Check{
 		ID:    "C02",
 		Level: "exploration",
-		Rule:  "every block of <= 2 transactions over a 17-letter alphabet (transfers, stake/unstake, three producer votes that touch the same tallies and the ranking, a parameter vote, names, contract deploy/calls with storage writes and a run-time failure, fee delegation) x pre-state {genesis, warm} x 3 (thorough 6) network configurations; the packages contract/system, types, state, state/statedb and chain are compiled with every `range` over a map rewritten to vorder.Map (the compiler decides which operands are maps), so each walk of a map with >= 2 entries during block execution is a choice point: default = ascending key order, alternatives = all permutations for <= 3 entries, else reverse / two rotations / swap of the first two. Per block: the producer is run twice under the default order and once per (walk, alternative) (thorough: also every pair of deviations); state root, receipts root, receipts bytes and the set of included txs must be identical; then a validator (ChainService.addBlock from the same pre-state) must accept the block under the default order and under every single deviation of its own walks, with byte-identical stores. distinct_nontrivial = distinct (net, pre-state, word) cases that passed",
+		Rule:  "every block of <= 2 transactions over an 18-letter alphabet (transfers, a contract call that fails with a system error and is dropped by the producer, stake/unstake, three producer votes that touch the same tallies and the ranking, a parameter vote, names, contract deploy/calls with storage writes and a run-time failure, fee delegation) x pre-state {genesis, warm} x 3 (thorough 6) network configurations; the packages contract/system, types, state, state/statedb and chain are compiled with every `range` over a map rewritten to vorder.Map (the compiler decides which operands are maps), so each walk of a map with >= 2 entries during block execution is a choice point: default = ascending key order, alternatives = all permutations for <= 3 entries, else reverse / two rotations / swap of the first two. Per block: the producer is run twice under the default order and once per (walk, alternative) (thorough: also every pair of deviations); state root, receipts root, receipts bytes and the set of included txs must be identical; then a validator (ChainService.addBlock from the same pre-state) must accept the block under the default order and under every single deviation of its own walks, with byte-identical stores. distinct_nontrivial = distinct (net, pre-state, word) cases that passed",
 		Assumptions: []string{
 			"goroutine scheduling inside pkg/trie (parallel subtree updates) runs free and is not enumerated; pkg/trie is not rewritten (the order in which it walks its node cache does not enter the root, see C10)",
 			"map walks on goroutines other than the executing one would also be counted as choice points (none were seen)",
